@@ -1,5 +1,7 @@
 package cty
 
+import "sort"
+
 // Walk visits all of the values in a possibly-complex structure, calling
 // a given function for each value.
 //
@@ -212,7 +214,14 @@ func transform(path Path, val Value, t Transformer) (Value, error) {
 		default:
 			atys := ty.AttributeTypes()
 			newAVs := make(map[string]Value)
+			// Visit the attributes in a well-defined order, because the
+			// transformer's callbacks can observe it.
+			names := make([]string, 0, len(atys))
 			for name := range atys {
+				names = append(names, name)
+			}
+			sort.Strings(names)
+			for _, name := range names {
 				av := rawVal.GetAttr(name)
 				path := append(path, GetAttrStep{
 					Name: name,
